@@ -139,6 +139,15 @@ def rule_pure(ctx):
         # the DESCRIBE must run; its text is DESCRIBE <last sql>
         parses = [e for e in p.effects if e[0] == "parse"]
         okp = any("DESCRIBE" in text_of(e[2]).upper() and "LAST_SQL" in text_of(e[2]) for e in parses)
+        for e in parses:
+            if "LAST_SQL" in text_of(e[2]):
+                rd = e[3].get("read") if isinstance(e[3], dict) else None
+                okr = isinstance(rd, Const) and rd.v == "duckdb"
+                ctx.ob("C06.c", "the recorded DuckDB text is re-parsed as DuckDB SQL", okr, loc, tagof(rd))
+                if not okr:
+                    ctx.violation("C06.c", "cursor", "FakeSnowflakeCursor._describe_last_sql", "recorded text re-parsed in another dialect", loc,
+                                  f"the recorded statement is DuckDB SQL (rendered with dialect='duckdb') but is re-parsed with read={tagof(rd)}: "
+                                  f"function arguments / subscripts are re-interpreted, so description names differ from the fetched columns")
         ctx.ob("C06.c", "description describes the recorded statement (DESCRIBE <_last_sql>)", okp, loc)
         if p.outcome == "return" and h.calls:
             prm = h.calls[0][1]
